@@ -120,13 +120,13 @@ theorem walkStepC_eq (ty kind : Nat) (data rest : Bytes) (st : WalkSt) :
     | [_] => rfl
     | [_, _] => rfl
     | [_, _, _] => rfl
-    | [a, b, c, d] => simp [walkStepC, walkStep, range04, be32Of]
-    | [a, b, c, d, _] => simp [walkStepC, walkStep, range04, be32Of]
-    | [a, b, c, d, _, _] => simp [walkStepC, walkStep, range04, be32Of]
-    | [a, b, c, d, _, _, _] => simp [walkStepC, walkStep, range04, be32Of]
+    | [a, b, c, d] => simp [walkStepC, walkStep, stepQuirks, range04, be32Of]
+    | [a, b, c, d, _] => simp [walkStepC, walkStep, stepQuirks, range04, be32Of]
+    | [a, b, c, d, _, _] => simp [walkStepC, walkStep, stepQuirks, range04, be32Of]
+    | [a, b, c, d, _, _, _] => simp [walkStepC, walkStep, stepQuirks, range04, be32Of]
     | a :: b :: c :: d :: e :: f :: g :: h :: t =>
       by_cases hty : ty = SYN <;>
-        simp [walkStepC, walkStep, range04, range48, be32Of, hty]
+        simp [walkStepC, walkStep, stepQuirks, range04, range48, be32Of, hty]
   | k + 9 => rfl
 
 /-- the loop with checked advance: never faults, and is the total walk -/
